@@ -26,10 +26,94 @@ class StmtMixin:
                     continue
                 progressed = True
                 nxt += self.exec_stmt(s_, o[1])
-            outs = nxt
+            outs = self.merge_equal_states(nxt)
             if not progressed:
                 break
         return outs
+
+    # ------------------------------------------------------------------
+    # join of paths that reach the same program point with the same state
+    # (they differ only in their path condition): logging-only branches,
+    # swallowed exceptions of quiet externals, ...
+    def _fp_value(self, v):
+        if v is None:
+            return ("unbound",)
+        if isinstance(v, (VInt, VBool, VReal, VStr, VObj)):
+            return (type(v).__name__, v.t.get_id())
+        if isinstance(v, VRef):
+            return ("VRef", v.t.get_id(), v.cls)
+        if isinstance(v, VNone):
+            return ("None",)
+        if isinstance(v, VTuple):
+            return ("T",) + tuple(self._fp_value(x) for x in v.items)
+        if isinstance(v, VLoc):
+            return ("L", v.oid)
+        if isinstance(v, VSeq):
+            return ("S", v.t.get_id())
+        if isinstance(v, VAbs):
+            return ("A", v.mem.get_id(), v.length.get_id())
+        if isinstance(v, VOpt):
+            return ("O", v.isnone.get_id(), self._fp_value(v.inner))
+        if isinstance(v, VFn):
+            return ("F", v.kind, v.name, v.frame, v.t.get_id() if v.t is not None else None,
+                    self._fp_value(v.self_) if isinstance(v.self_, V) else None)
+        if isinstance(v, (VClass, VModule, VConst)):
+            return (type(v).__name__, v.name)
+        return ("?", id(v))
+
+    def _fingerprint(self, st):
+        frames = tuple(sorted((fid, tuple(sorted((n, self._fp_value(x)) for n, x in f.vars.items())), tuple(sorted(f.globals_decl)))
+                              for fid, f in st.frames.items()))
+        heap = tuple(sorted((k, tuple(a.get_id() for a in arrs)) for k, arrs in st.heap.items()))
+        ghost = tuple(sorted((k, t.get_id()) for k, t in st.ghost.items()))
+        globs = tuple(sorted((k, self._fp_value(v)) for k, v in st.globs.items()))
+        objs = tuple(sorted((k, o.kind, tuple(self._fp_value(x) for x in (o.data if o.kind != "dict" else o.data.values())),
+                             tuple(o.data) if o.kind == "dict" else ()) for k, o in st.objs.items()))
+        log = tuple((e.tag, tuple(self._fp_value(a) if isinstance(a, V) else ("raw", str(a)) for a in e.args)) for e in st.log)
+        return (st.cur, frames, heap, ghost, globs, objs, log, tuple(h.get_id() for h in st.held), st.alloc.get_id(),
+                self._fp_value(st.cur_exc) if st.cur_exc is not None else None,
+                tuple(self._fp_value(x) for x in st.gen_out) if st.gen_out is not None else None,
+                tuple(sorted(st.log_opaque)))
+
+    def merge_equal_states(self, outs):
+        nexts = [o for o in outs if o[0] == "next"]
+        if len(nexts) < 2 or self.spec:
+            return outs
+        groups = {}
+        order = []
+        for o in nexts:
+            try:
+                fp = self._fingerprint(o[1])
+            except Exception:
+                fp = ("nomerge", id(o))
+            if fp not in groups:
+                groups[fp] = []
+                order.append(fp)
+            groups[fp].append(o)
+        if len(order) == len(nexts):
+            return outs
+        merged = []
+        for fp in order:
+            g = groups[fp]
+            if len(g) == 1:
+                merged.append(g[0])
+                continue
+            base = g[0][1]
+            pcs = [o[1].pc for o in g]
+            n = 0
+            while all(len(p) > n for p in pcs) and all(p[n].eq(pcs[0][n]) for p in pcs):
+                n += 1
+            rests = [z3.And(p[n:]) if len(p) > n else z3.BoolVal(True) for p in pcs]
+            base.pc = list(pcs[0][:n]) + [z3.Or(rests)]
+            seenq = {id(q) for q in base.qhyps}
+            for o in g[1:]:
+                for q in o[1].qhyps:
+                    if id(q) not in seenq:
+                        seenq.add(id(q))
+                        base.qhyps.append(q)
+            base.notes = list(g[0][1].notes[:0]) + [x for x in g[0][1].notes if all(x in o[1].notes for o in g)] + [f"join({len(g)})"]
+            merged.append(("next", base, None))
+        return [o for o in outs if o[0] != "next"] + merged
 
     def exec_stmt(self, node, st):
         m = getattr(self, "st_" + node.__class__.__name__, None)
@@ -447,7 +531,9 @@ class StmtMixin:
         return out
 
     def st_FunctionDef(self, node, st):
-        fn = VFn("closure", name=node.name, node=node, frame=st.cur, module=st.frame.module)
+        outer = st.frame.func or ""
+        key = f"{outer}.{node.name}" if ":" in outer else None
+        fn = VFn("closure", name=node.name, node=node, frame=st.cur, module=st.frame.module, extra=key)
         self.store_name(node.name, fn, st)
         return [("next", st, None)]
 
@@ -615,6 +701,8 @@ class StmtMixin:
                 outs.append(r)
                 continue
             it, s = r[2], r[1]
+            if isinstance(it, VRef) and isinstance(it.T, ty.Map):
+                it = self.map_view(it, "keys", s)
             if isinstance(it, (VTuple, VLoc)):
                 outs += self.unroll_for(node, self.concrete_items(it, s), s)
                 continue
@@ -695,6 +783,7 @@ class StmtMixin:
         for attempt in range(8):
             saved_results = self.results
             self.results = []
+            self.defer_depth = getattr(self, "defer_depth", 0) + 1
             self._loop_counter0 = counter_value()
             self._loop_alloc0 = st.alloc
             hav = st.clone()
@@ -724,9 +813,13 @@ class StmtMixin:
                 outs += self.run_loop_from(node, hav, inv, kind, iterable, idx_name, seen_name, entry, base, finals)
                 if self.observe_writes(finals, snap, written):
                     grew = True
+            self.defer_depth -= 1
             if not grew:
-                saved_results.extend(self.results)
+                kept = self.results
                 self.results = saved_results
+                if self.defer_depth == 0:
+                    kept = self.discharge_deferred(kept)
+                self.results.extend(kept)
                 if written["locs"]:
                     raise EngineError(f"loop {inv.loop} of {inv.key} grows a concrete list; declare it as a heap list")
                 return outs
@@ -875,6 +968,7 @@ class StmtMixin:
         variant0 = None
         for s in iter_starts:
             iter_log_start = len(s.log)
+            iter0 = s.clone()
             if inv.decreases:
                 variant0 = self.spec_value(inv.decreases, s, {}, old=ctl.old if ctl else None, entry=entry)
             for o in self.exec_block(body_stmts, s):
@@ -889,6 +983,7 @@ class StmtMixin:
                     for label, expr, prop in inv.iter_posts:
                         saved_start = getattr(self.ctl, "log_start", 0)
                         self.ctl.log_start = iter_log_start
+                        self.ctl.iter = iter0
                         try:
                             g = self.spec_eval(expr, s2, {}, old=ctl.old if ctl else None, entry=entry)
                         finally:
@@ -1037,6 +1132,9 @@ class StmtMixin:
             x = fresh_const("item", it.elem.comps[0])
             seen = st.frame.vars[seen_name]
             st.assume(z3.Select(it.mem, x))
+            if it.src and it.src[0] in ("keys", "items"):
+                # the keys of a dict are pairwise distinct: each is visited once
+                st.assume(z3.Not(z3.Select(seen.mem, x)))
             if it.src is None or it.src[0] not in ("sorted",):
                 pass
             item = unflatten(it.elem, (x,))
